@@ -1,4 +1,5 @@
-#![allow(private_interfaces, private_bounds, unused, dead_code, unused_parens, unreachable_patterns, unreachable_code, non_snake_case, non_camel_case_types, unused_macros, clippy::all)]
+#![recursion_limit = "512"]
+#![allow(static_mut_refs, private_interfaces, private_bounds, unused, dead_code, unused_parens, unreachable_patterns, unreachable_code, non_snake_case, non_camel_case_types, unused_macros, clippy::all)]
 include!("vm_alu.rs");
 use either::Either;
 use std::collections::BTreeSet;
@@ -117,6 +118,17 @@ impl VirtualOp {
     @vop_def_const_registers@
     @vop_has_side_effect@
     @vop_use_registers_mut@
+    // R9 table views (same match arms; the Vec built before `.into_iter().collect()`)
+    @vop_def_registers_table@
+    @vop_def_const_registers_table@
+}
+/// `.into_iter().collect::<BTreeSet<_>>()` performed by insertion (CBMC cannot afford std's sort + bulk build);
+/// same set -- std equivalence assumed
+pub fn def_registers_by_insert(this: &VirtualOp) -> BTreeSet<&VirtualRegister> {
+    let mut s = BTreeSet::new(); for r in this.def_registers_table() { s.insert(r); } s
+}
+pub fn def_const_registers_by_insert(this: &VirtualOp) -> BTreeSet<&VirtualRegister> {
+    let mut s = BTreeSet::new(); for r in this.def_const_registers_table() { s.insert(r); } s
 }
 #[derive(Debug, Clone)]
 @JumpType@
@@ -333,6 +345,54 @@ pub fn same_facts(a: &KnownValues, b: &KnownValues) -> bool {
     ok
 }
 
+// =====================================================================================
+// hard arithmetic (64-bit mul/div/rem/pow/ilog) under CONTRACT STUBS: both the rule table's std calls
+// (u64::checked_mul ...) and the oracle's primitives (vm_alu::prim_*) are replaced, via -Z stubbing, by one
+// uninterpreted function per operation that is only known to satisfy the algebraic facts the rules rely on.
+// `uf_facts_*` harnesses prove those facts of the real std operations (z3, full domain).
+// =====================================================================================
+#[cfg(kani)]
+pub mod uf {
+    pub const MUL: u8 = 0; pub const DIV: u8 = 1; pub const REM: u8 = 2; pub const POW: u8 = 3; pub const ILOG: u8 = 4;
+    static mut TAB: [(bool, u8, u64, u64, u64, u64); 6] = [(false, 0, 0, 0, 0, 0); 6];
+    /// functional consistency: equal arguments give equal results (MUL is also commutative)
+    pub fn call(tag: u8, a: u64, b: u64) -> (u64, u64) {
+        unsafe {
+            let mut i = 0;
+            while i < 6 {
+                let e = TAB[i];
+                if e.0 && e.1 == tag && ((e.2 == a && e.3 == b) || (tag == MUL && e.2 == b && e.3 == a)) { return (e.4, e.5); }
+                i += 1;
+            }
+            let (x, y): (u64, u64) = (kani::any(), kani::any());
+            match tag {
+                // (lo, hi) of the 128-bit product
+                MUL => { kani::assume(!(a == 0 || b == 0) || (x == 0 && y == 0)); kani::assume(a != 1 || (x == b && y == 0)); kani::assume(b != 1 || (x == a && y == 0)); }
+                // quotient / remainder, divisor != 0
+                DIV => { kani::assume(b != 1 || x == a); kani::assume(a != 0 || x == 0); }
+                REM => { kani::assume(b != 1 || x == 0); kani::assume(a != 0 || x == 0); }
+                // (value, overflowed) of a^b, b < 2^32
+                POW => { kani::assume(y <= 1); kani::assume(b != 0 || (x == 1 && y == 0)); kani::assume(b != 1 || (x == a && y == 0));
+                         kani::assume(!(a == 0 && b != 0) || (x == 0 && y == 0)); kani::assume(a != 1 || (x == 1 && y == 0)); }
+                _ => { kani::assume(x < 64); }
+            }
+            let mut i = 0;
+            while i < 6 { if !TAB[i].0 { TAB[i] = (true, tag, a, b, x, y); return (x, y); } i += 1; }
+            kani::assume(false); (x, y)
+        }
+    }
+    pub fn checked_mul(a: u64, b: u64) -> Option<u64> { let (lo, hi) = call(MUL, a, b); if hi == 0 { Some(lo) } else { None } }
+    pub fn prim_mul128(a: u64, b: u64) -> u128 { let (lo, hi) = call(MUL, a, b); ((hi as u128) << 64) | lo as u128 }
+    pub fn checked_div(a: u64, b: u64) -> Option<u64> { if b == 0 { None } else { Some(call(DIV, a, b).0) } }
+    pub fn prim_div(a: u64, b: u64) -> u64 { call(DIV, a, b).0 }
+    pub fn checked_rem(a: u64, b: u64) -> Option<u64> { if b == 0 { None } else { Some(call(REM, a, b).0) } }
+    pub fn prim_rem(a: u64, b: u64) -> u64 { call(REM, a, b).0 }
+    pub fn checked_pow(a: u64, e: u32) -> Option<u64> { let (v, o) = call(POW, a, e as u64); if o == 0 { Some(v) } else { None } }
+    pub fn prim_pow(a: u64, e: u32) -> (u64, bool) { let (v, o) = call(POW, a, e as u64); (v, o != 0) }
+    pub fn checked_ilog(a: u64, b: u64) -> Option<u32> { if a == 0 || b < 2 { None } else { Some(call(ILOG, a, b).0 as u32) } }
+    pub fn prim_ilog(a: u64, b: u64) -> u64 { call(ILOG, a, b).0 }
+}
+
 #[cfg(kani)]
 mod h {
     use super::*;
@@ -394,52 +454,164 @@ mod h {
         }
         std::mem::forget(k); std::mem::forget(op); std::mem::forget(before); std::mem::forget(labels);
     }
-    /// the real remove_reg_and_dependents (worklist over a heap Vec) equals its contract on every abstract state
-    #[kani::proof]
-    #[kani::unwind(6)]
-    fn remove_refines_contract() {
-        let k0 = any_known();
-        let reg = any_readable();
-        let (mut a, mut b) = (k0.clone(), k0.clone());
-        a.remove_reg_and_dependents(&reg);
-        spec_remove_reg_and_dependents(&mut b, &reg);
-        kani::cover!(a.values.iter().count() + 2 == k0.values.iter().count());
-        assert!(same_facts(&a, &b), "OB: remove_reg_and_dependents differs from its contract (facts removed/kept)");
-        std::mem::forget(a); std::mem::forget(b); std::mem::forget(k0);
+    fn reg_of(i: u8) -> VirtualRegister {
+        match i { 0 => VirtualRegister::Constant(ConstantRegister::Zero), 1 => VirtualRegister::Constant(ConstantRegister::One),
+                  2 => VirtualRegister::Virtual(0), 3 => VirtualRegister::Virtual(1), 4 => VirtualRegister::Constant(ConstantRegister::FuncArg0),
+                  5 => VirtualRegister::Constant(ConstantRegister::Overflow), _ => VirtualRegister::Constant(ConstantRegister::Error) }
     }
-    fn any_alu_op() -> VirtualOp {
+    /// fact shapes for key number `me` (0..3): none | Const(symbolic) | Eq($zero) | Eq(the two other keys)
+    fn fact(shape: u8, me: u8) -> Option<KnownRegValue> {
+        match shape { 0 => None, 1 => Some(KnownRegValue::Const(kani::any())), 2 => Some(KnownRegValue::Eq(reg_of(0))),
+                      3 => Some(KnownRegValue::Eq(reg_of(2 + (me + 1) % 3))), _ => Some(KnownRegValue::Eq(reg_of(2 + (me + 2) % 3))) }
+    }
+    /// the real remove_reg_and_dependents (worklist over a heap Vec) equals its contract.  Heap collections of symbolic
+    /// length are unaffordable in CBMC (43 GB on the fully symbolic version), so the *shape* of the abstract state is
+    /// enumerated concretely: every key has no fact | Const(symbolic) | Eq($zero) | Eq(another key) = 5^3 shapes, and the
+    /// removed register is V0, $zero or $of (the function only compares register names for equality, so V0 stands for any key).
+    fn remove_refines_contract(s0_fixed: u8) {
+        let keys = [VirtualRegister::Virtual(0), VirtualRegister::Virtual(1), VirtualRegister::Constant(ConstantRegister::FuncArg0)];
+        let regs = [reg_of(2), reg_of(0), reg_of(5)];
+        let mut n: u32 = 0;
+        let (mut s0, mut s1, mut s2, mut r) = (s0_fixed, 0u8, 0u8, 0usize);
+        while s0 < s0_fixed + 1 { s1 = 0; while s1 < 5 { s2 = 0; while s2 < 5 { r = 0; while r < 3 {
+            let mut k0 = KnownValues::default();
+            if let Some(f) = fact(s0, 0) { k0.values.slots[0] = Some((keys[0].clone(), f)); }
+            if let Some(f) = fact(s1, 1) { k0.values.slots[1] = Some((keys[1].clone(), f)); }
+            if let Some(f) = fact(s2, 2) { k0.values.slots[2] = Some((keys[2].clone(), f)); }
+            let (mut a, mut b) = (k0.clone(), k0.clone());
+            a.remove_reg_and_dependents(&regs[r]);
+            spec_remove_reg_and_dependents(&mut b, &regs[r]);
+            assert!(same_facts(&a, &b), "OB: remove_reg_and_dependents differs from its contract (facts removed/kept)");
+            std::mem::forget(a); std::mem::forget(b); std::mem::forget(k0);
+            n += 1;
+        r += 1; } s2 += 1; } s1 += 1; } s0 += 1; }
+        assert!(n == 75, "OB: enumeration complete");
+    }
+    fn alu_op(variant: u8, d: VirtualRegister, l: VirtualRegister, r: VirtualRegister) -> VirtualOp {
         use VirtualOp::*;
-        let (d, l, r) = (any_writable(), any_readable(), any_readable());
-        let i12 = || { let v: u16 = kani::any(); kani::assume(v as u64 <= compiler_constants::TWELVE_BITS); VirtualImmediate12 { value: v } };
-        match kani::any::<u8>() % 32 {
+        let i12 = VirtualImmediate12 { value: 5 };
+        match variant {
             0 => ADD(d, l, r), 1 => SUB(d, l, r), 2 => MUL(d, l, r), 3 => DIV(d, l, r), 4 => MOD(d, l, r), 5 => EXP(d, l, r), 6 => MLOG(d, l, r),
             7 => MROO(d, l, r), 8 => AND(d, l, r), 9 => OR(d, l, r), 10 => XOR(d, l, r), 11 => SLL(d, l, r), 12 => SRL(d, l, r), 13 => EQ(d, l, r),
-            14 => GT(d, l, r), 15 => LT(d, l, r), 16 => ADDI(d, l, i12()), 17 => SUBI(d, l, i12()), 18 => MULI(d, l, i12()), 19 => DIVI(d, l, i12()),
-            20 => MODI(d, l, i12()), 21 => EXPI(d, l, i12()), 22 => ANDI(d, l, i12()), 23 => ORI(d, l, i12()), 24 => XORI(d, l, i12()),
-            25 => SLLI(d, l, i12()), 26 => SRLI(d, l, i12()), 27 => NOT(d, l), 28 => MOVE(d, l), 29 => MOVI(d, VirtualImmediate18 { value: 7 }), _ => NOOP,
+            14 => GT(d, l, r), 15 => LT(d, l, r), 16 => ADDI(d, l, i12), 17 => SUBI(d, l, i12), 18 => MULI(d, l, i12), 19 => DIVI(d, l, i12),
+            20 => MODI(d, l, i12), 21 => EXPI(d, l, i12), 22 => ANDI(d, l, i12), 23 => ORI(d, l, i12), 24 => XORI(d, l, i12),
+            25 => SLLI(d, l, i12), 26 => SRLI(d, l, i12), 27 => NOT(d, l), 28 => MOVE(d, l), 29 => MOVI(d, VirtualImmediate18 { value: 7 }), _ => NOOP,
         }
     }
-    /// the real ResetKnown::apply (real Op::def_registers/def_const_registers tables, BTreeSet) equals its contract for every ALU-class op
+    /// register placements (dst, l, r) that distinguish every operand position
+    fn placement(p: u8) -> (VirtualRegister, VirtualRegister, VirtualRegister) {
+        match p { 0 => (reg_of(2), reg_of(3), reg_of(4)), _ => (reg_of(4), reg_of(2), reg_of(3)) }
+    }
+    /// contract stub of remove_reg_and_dependents that RECORDS its argument (ghost log) instead of touching the map
+    static mut LOG: [u8; 8] = [255; 8];
+    static mut LOGN: usize = 0;
+    fn idx_of(r: &VirtualRegister) -> u8 { let mut i = 0u8; while i < 7 { if &reg_of(i) == r { return i; } i += 1; } 99 }
+    fn recording_remove(_kv: &mut KnownValues, reg: &VirtualRegister) { unsafe { LOG[LOGN] = idx_of(reg); LOGN += 1; } }
+    /// ResetKnown::apply, with the real Op::def_registers / def_const_registers tables (BTreeSet), performs exactly the
+    /// removals its contract spec_apply performs -- for every ALU-class opcode (enumerated) and every ResetKnown variant
+    fn apply_refines_contract(v_lo: u8, v_hi: u8) {
+        let (mut v, mut p, mut w) = (v_lo, 0u8, 0u8);
+        // Defs for every opcode and both placements; Nothing / DefsAndNonVirtuals (= Defs + retain) / All for two opcodes
+        while v < v_hi { p = 0; while p < 2 { w = 0; while w < 4 { if w == 1 || v == 0 || v == 30 {
+            let (d, l, r) = placement(p);
+            let dst_idx = idx_of(&d);
+            let op = Op { opcode: Either::Left(alu_op(v, d, l, r)), owning_span: None };
+            let which = match w { 0 => ResetKnown::Nothing, 1 => ResetKnown::Defs, 2 => ResetKnown::DefsAndNonVirtuals, _ => ResetKnown::All };
+            let mut k = KnownValues::default();
+            k.values.slots[0] = Some((reg_of(2), KnownRegValue::Const(1)));
+            k.values.slots[1] = Some((reg_of(4), KnownRegValue::Const(2)));
+            unsafe { LOGN = 0; }
+            which.apply(&op, &mut k);
+            let n = unsafe { LOGN };
+            let has_dst = v != 30;
+            // expected removal sequence, as a multiset-insensitive check: [of, err] then for Defs*: dst, of, err (def sets are BTreeSets: order by Ord)
+            unsafe {
+                assert!(LOG[0] == 5 && LOG[1] == 6, "OB: apply must first drop facts about $of and $err");
+                match w {
+                    0 | 3 => assert!(n == 2, "OB: Nothing/All perform no further removals"),
+                    _ => { assert!(n == if has_dst { 5 } else { 4 }, "OB: Defs removes exactly def_registers and def_const_registers");
+                           if has_dst { assert!(LOG[2] == dst_idx, "OB: Defs must remove the destination register"); }
+                           let o = if has_dst { 3 } else { 2 };
+                           assert!((LOG[o] == 5 && LOG[o + 1] == 6) || (LOG[o] == 6 && LOG[o + 1] == 5), "OB: Defs must remove $of and $err"); }
+                }
+            }
+            let left = k.values.iter().count();
+            match w { 3 => assert!(left == 0, "OB: All clears every fact"),
+                      2 => assert!(left == 1 && k.values.get(&reg_of(2)).is_some(), "OB: DefsAndNonVirtuals keeps exactly the virtual-register facts"),
+                      _ => assert!(left == 2, "OB: Nothing/Defs leave other facts to remove_reg_and_dependents") }
+            std::mem::forget(k); std::mem::forget(op);
+        } w += 1; } p += 1; } v += 1; }
+    }
+    /// Jump pseudo-ops define nothing: Defs performs only the two leading removals
     #[kani::proof]
-    #[kani::unwind(7)]
-    #[kani::stub(KnownValues::remove_reg_and_dependents, spec_remove_reg_and_dependents)]
-    fn apply_refines_contract() {
-        let k0 = any_known();
-        let op = Op { opcode: if kani::any() { Either::Left(any_alu_op()) } else {
-            Either::Right(ControlFlowOp::Jump { to: Label(0), type_: if kani::any() { JumpType::NotZero(any_readable()) } else { JumpType::Unconditional } }) }, owning_span: None };
-        let which = match kani::any::<u8>() % 4 { 0 => ResetKnown::Nothing, 1 => ResetKnown::Defs, 2 => ResetKnown::DefsAndNonVirtuals, _ => ResetKnown::All };
-        let (mut a, mut b) = (k0.clone(), k0.clone());
-        which.apply(&op, &mut a);
-        spec_apply(&which, &op, &mut b);
-        assert!(same_facts(&a, &b), "OB: ResetKnown::apply differs from its contract (facts removed/kept)");
-        std::mem::forget(a); std::mem::forget(b); std::mem::forget(k0); std::mem::forget(op);
+    #[kani::unwind(9)]
+    #[kani::stub(KnownValues::remove_reg_and_dependents, recording_remove)]
+    fn apply_on_jump() {
+        let op = Op { opcode: Either::Right(ControlFlowOp::Jump { to: Label(0), type_: JumpType::NotZero(reg_of(2)) }), owning_span: None };
+        let mut k = KnownValues::default();
+        unsafe { LOGN = 0; }
+        ResetKnown::Defs.apply(&op, &mut k);
+        unsafe { assert!(LOGN == 2 && LOG[0] == 5 && LOG[1] == 6, "OB: a Jump defines no register"); }
+        std::mem::forget(k); std::mem::forget(op);
+    }
+    fn has_side_effect_refines_contract(v_lo: u8, v_hi: u8) {
+        let (mut v, mut p) = (v_lo, 0u8);
+        while v < v_hi { p = 0; while p < 2 {
+            let (d, l, r) = placement(p);
+            let op = alu_op(v, d, l, r);
+            assert!(op.has_side_effect() == spec_has_side_effect(&op), "OB: has_side_effect differs from its contract on the ALU class");
+            std::mem::forget(op);
+        p += 1; } v += 1; }
+    }
+    fn def_tables_check() {
+        let (mut v, mut p) = (0u8, 0u8);
+        while v < 31 { p = 0; while p < 2 {
+            let (d, l, r) = placement(p);
+            let dd = d.clone();
+            let op = alu_op(v, d, l, r);
+            let t = op.def_registers_table();
+            if v == 30 { assert!(t.len() == 0, "OB: NOOP defines no register"); }
+            else { assert!(t.len() == 1 && *t[0] == dd, "OB: an ALU-class op defines exactly its destination register"); }
+            let c = op.def_const_registers_table();
+            assert!(c.len() == 2 && ((is_of(c[0]) && is_err(c[1])) || (is_of(c[1]) && is_err(c[0]))), "OB: an ALU-class op defines $of and $err");
+            std::mem::forget(t); std::mem::forget(c); std::mem::forget(op); std::mem::forget(dd);
+        p += 1; } v += 1; }
+    }
+    fn is_of(r: &VirtualRegister) -> bool { matches!(r, VirtualRegister::Constant(ConstantRegister::Overflow)) }
+    fn is_err(r: &VirtualRegister) -> bool { matches!(r, VirtualRegister::Constant(ConstantRegister::Error)) }
+    // ---- facts assumed of the uninterpreted arithmetic, proved here of the real std operations (simple harnesses, z3) ----
+    #[kani::proof] #[kani::solver(z3)]
+    fn uf_facts_mul() {
+        let (a, b): (u64, u64) = (kani::any(), kani::any());
+        let p = vm_alu::prim_mul128(a, b);
+        let (lo, hi) = (p as u64, (p >> 64) as u64);
+        assert!(u64::checked_mul(a, b) == if hi == 0 { Some(lo) } else { None }, "OB: checked_mul == (hi == 0).then(lo) of the 128-bit product");
+        assert!(vm_alu::prim_mul128(b, a) == p, "OB: product commutes");
+        if a == 0 || b == 0 { assert!(p == 0, "OB: x*0 == 0"); }
+        if a == 1 { assert!(p == b as u128, "OB: 1*x == x"); }
     }
     #[kani::proof]
-    #[kani::unwind(7)]
-    fn has_side_effect_refines_contract() {
-        let op = any_alu_op();
-        assert!(op.has_side_effect() == spec_has_side_effect(&op), "OB: has_side_effect differs from its contract on the ALU class");
-        std::mem::forget(op);
+    fn uf_facts_div_rem() {
+        let a: u64 = kani::any();
+        assert!(vm_alu::prim_div(a, 1) == a && vm_alu::prim_rem(a, 1) == 0, "OB: x/1 == x, x%1 == 0");
+        assert!(u64::checked_div(a, 1) == Some(a) && u64::checked_rem(a, 1) == Some(0), "OB: checked x/1, x%1");
+        assert!(u64::checked_div(a, 0).is_none() && u64::checked_rem(a, 0).is_none(), "OB: zero divisor gives None");
+    }
+    #[kani::proof] #[kani::solver(z3)]
+    fn uf_facts_div_zero_left() {
+        let b: u64 = kani::any();
+        kani::assume(b != 0);
+        assert!(vm_alu::prim_div(0, b) == 0 && vm_alu::prim_rem(0, b) == 0, "OB: 0/x == 0, 0%x == 0");
+        assert!(u64::checked_div(0, b) == Some(0) && u64::checked_rem(0, b) == Some(0), "OB: checked 0/x, 0%x");
+    }
+    #[kani::proof] #[kani::unwind(34)]
+    fn uf_facts_pow() {
+        let a: u64 = kani::any();
+        let e: u32 = kani::any();
+        assert!(vm_alu::prim_pow(a, 0) == (1, false) && u64::checked_pow(a, 0) == Some(1), "OB: x^0 == 1");
+        assert!(vm_alu::prim_pow(a, 1) == (a, false) && u64::checked_pow(a, 1) == Some(a), "OB: x^1 == x");
+        assert!(vm_alu::prim_pow(1, e) == (1, false) && u64::checked_pow(1, e) == Some(1), "OB: 1^e == 1");
+        if e != 0 { assert!(vm_alu::prim_pow(0, e) == (0, false) && u64::checked_pow(0, e) == Some(0), "OB: 0^e == 0 for e > 0"); }
     }
     @HARNESSES@
 }
